@@ -90,3 +90,28 @@ PROPS = {
         "assumptions": COMMON_ASSUME,
     },
 }
+
+
+# Tie A theorems (Verif/Props/TieA.lean) and inventories each property depends on
+_TOK_TIES = ["generic_dispatch_tie", "expression_dispatch_tie", "mustache_dispatch_tie", "csv_tie", "wordChars_tie",
+             "cfg_from_facts", "tokenTypes_tie", "charmap_tie"]
+_TIES = {
+    "C01": ["levelOps_tie", "matchPatterns_tie", "evalDispatch_tie", "etOp_tie", "exprTokenTypes_tie", "operators_tie", "keywords_tie"],
+    "C02": ["levelOps_tie", "matchPatterns_tie", "exprTokenTypes_tie", "operators_tie"],
+    "C03": ["*"],
+    "C04": _TOK_TIES, "C05": _TOK_TIES, "C12": _TOK_TIES, "C15": _TOK_TIES,
+    "C13": _TOK_TIES + ["keywords_tie", "upperToAscii_tie"],
+    "C09": ["csv_tie", "tokenTypes_tie", "charmap_tie", "decode_tie"],
+    "C16": ["generic_dispatch_tie", "expression_dispatch_tie", "mustache_dispatch_tie", "csv_tie", "tokenTypes_tie", "charmap_tie"],
+    "C17": ["charmap_tie"],
+    "C14": ["decode_tie"],
+    "C06": ["variantTypes_tie"], "C07": ["variantTypes_tie"], "C20": ["variantTypes_tie"],
+    "C08": ["fnNames_tie", "fnCalculators_tie", "variantTypes_tie"],
+    "C10": ["mustacheTypes_tie", "mustache_dispatch_tie", "tokenTypes_tie"],
+    "C18": ["keywords_tie", "fnNames_tie", "exprTokenTypes_tie", "mustacheTypes_tie"],
+    "C19": ["evalDispatch_tie", "etOp_tie"],
+}
+_INVENTORIES = {"C03": ["panic_sites"], "C19": ["write_effects"]}
+for _k, _v in PROPS.items():
+    _v["ties"] = _TIES.get(_k, [])
+    _v["inventories"] = _INVENTORIES.get(_k, [])
